@@ -405,6 +405,9 @@ def st_value(kind: str, strs: Any = None):
     if kind == "fsfs":
         inner = st.lists(st.sampled_from([1, 18, 2, 35, 0]), max_size=2, unique=True).map(lambda xs: {"$fs": xs})
         return st.lists(inner, max_size=3, unique_by=lambda d: tuple(sorted(d["$fs"]))).map(lambda xs: {"$fs": xs})
+    if kind == "tfs":
+        inner = st.lists(st.sampled_from([0, 8, 16, 24, 1]), max_size=3, unique=True).map(lambda xs: {"$fs": xs})
+        return st.lists(inner, max_size=2).map(lambda xs: {"$t": xs})
     if kind == "senum":
         return st.sampled_from(["ADD", "SUB"]).map(lambda n: {"$se": n})
     if kind == "bytes":
@@ -487,7 +490,7 @@ class TreeGen:
         for f in M.prop_fields(cn):
             if not f.init:
                 continue
-            if not self.frozensets and f.kind in ("fsint", "fsstr", "fsfs"):
+            if not self.frozensets and f.kind in ("fsint", "fsstr", "fsfs", "tfs"):
                 continue
             d[f.name] = st_value(f.kind, self.strs)
         # optional: a property may be left at its default
